@@ -162,6 +162,8 @@ is32(int t)
 static unsigned char *encblk[2]; /* exact blocks of 5 and 10 octets */
 static unsigned char *blk2[24];  /* exact blocks for encodings at an offset, carved on demand */
 static unsigned char *decblk[12]; /* exact blocks of 1..11 octets */
+static const size_t offlead[3] = { 1, 9, 12 };
+static unsigned char *offblk[3][12]; /* exact blocks of lead + 0..11 octets: strings decoded behind consumed octets */
 
 static void
 roundtrip(int t, uint64_t v)
@@ -234,6 +236,9 @@ setup_blocks(void)
     encblk[1] = vh_arena(10);
     for (int i = 0; i <= 11; i++)
         decblk[i] = vh_arena((size_t)i);
+    for (int l = 0; l < 3; l++)
+        for (int i = 0; i <= 11; i++)
+            offblk[l][i] = vh_arena(offlead[l] + (size_t)i);
     memset(blk2, 0, sizeof blk2);
 }
 
@@ -366,6 +371,39 @@ decode_string(const unsigned char *s, size_t n)
                             brc[variant], b.offset);
             }
         }
+        /* the same octets as the unread rest of a longer buffer: `lead` consumed octets in front, the block ends
+         * with the string - a number cut off by the end of the memory must be refused here too */
+        for (int l = 0; l < 3 && n > 0; l++) {
+            const size_t lead = offlead[l];
+            unsigned char *ob = offblk[l][n];
+            memset(ob, 0x80, lead);
+            memcpy(ob + lead, s, n);
+            ByteBuffer b;
+            byte_buffer_use(&b, ob, lead + n);
+            b.offset = lead;
+            uint64_t ov = 0;
+            int orc = api_decode(t, &b, &ov);
+            snprintf(key, sizeof key, "type=%s variant=offset", tname[t]);
+            if (verdict == R_OK) {
+                if (orc != (int)rused || b.offset != lead + rused)
+                    vh_fail("buffer-decoder-ok", key, "input=%s behind %zu consumed octets: rc=%d offset=%zu expected consumed %zu",
+                            vh_hex(s, n), lead, orc, b.offset, rused);
+                else if (!ovf && ov != rv)
+                    vh_fail("buffer-decoder-value", key, "input=%s behind %zu consumed octets: value=%016" PRIx64 " expected %016" PRIx64,
+                            vh_hex(s, n), lead, ov, rv);
+            } else {
+                if (orc >= 0)
+                    vh_fail("buffer-decoder-accepts", key, "input=%s (%s) behind %zu consumed octets: rc=%d", vh_hex(s, n),
+                            verdict == R_ILLEGAL ? "no terminator" : "cut off", lead, orc);
+                else if (verdict == R_ILLEGAL && orc != -EILSEQ)
+                    vh_fail("buffer-decoder-code", key, "input=%s behind %zu consumed octets: rc=%d expected -EILSEQ", vh_hex(s, n), lead, orc);
+                if (b.offset != lead)
+                    vh_fail("buffer-decoder-consumes-on-error", key, "input=%s behind %zu consumed octets: rc=%d offset=%zu", vh_hex(s, n), lead,
+                            orc, b.offset);
+            }
+            if (verdict != R_OK && verdict != R_ILLEGAL)
+                VH_COUNT("decoder input behind consumed octets: cut off by the end of the buffer");
+        }
         struct osrc os = { .p = blk, .n = n, .pos = 0 };
         Source src;
         octet_source_init(&src, osrc_get, &os);
@@ -490,7 +528,8 @@ harness_run(void)
                                  "64-bit 7-bit boundaries and single/double bits (s64)",
                                  "decoder input: well-formed", "decoder input: no terminator within maximum",
                                  "decoder input: cut off by the end of the buffer",
-                                 "enumerated strings of length 7", "decoder input strings (random)" };
+                                 "enumerated strings of length 7", "decoder input strings (random)",
+                                 "decoder input behind consumed octets: cut off by the end of the buffer" };
     for (size_t i = 0; i < sizeof req / sizeof req[0]; i++)
         vh_require(req[i]);
 }
